@@ -107,3 +107,114 @@ def rebuild(func, passes, extra_globals=None):
     new = ns[fdef.name]
     new.__symx_source__ = ast.unparse(tree)
     return new
+
+
+# --------------------------------------------------------------------------- loop rule
+class LoopSpec:
+    """Invariant / variant of one loop, keyed by its ordinal (source order) in the function.
+
+    inv(L, g)  -> SymBool/bool  : L = locals() of the function, g = ghost dict
+    variant(L) -> SymInt        : must decrease and stay >= 0 while the loop runs
+    ghosts     -> {name: init}  : ghost variables (e.g. iteration count k), havoced with the loop
+    step(g)    -> new ghost dict after one iteration (the witness for the re-established invariant)
+    """
+
+    def __init__(self, inv, variant, ghosts=None, step=None):
+        self.inv, self.variant, self.ghosts, self.step = inv, variant, dict(ghosts or {}), step or (lambda g: g)
+
+
+class _LoopCtx:
+    def __init__(self, specs, fresh):
+        self.specs = specs
+        self.fresh = fresh
+        self.ghost = {}
+
+    def enter(self, i, L):
+        eng = core.current()
+        spec = self.specs[i]
+        g0 = dict(spec.ghosts)
+        eng.prove(f"loop{i}:inv-entry", core._b(spec.inv(L, g0)))
+        self.ghost[i] = {k: self.fresh(f"ghost{i}_{k}") for k in g0}
+
+    def havoc(self, name):
+        return self.fresh("havoc_" + name)
+
+    def assume_inv(self, i, L):
+        eng = core.current()
+        eng.assume(core._b(self.specs[i].inv(L, self.ghost[i])))
+        return self.specs[i].variant(L)
+
+    def after_body(self, i, L, v0):
+        eng = core.current()
+        spec = self.specs[i]
+        g1 = spec.step(self.ghost[i])
+        eng.prove(f"loop{i}:inv-preserved", core._b(spec.inv(L, g1)))
+        v1 = spec.variant(L)
+        eng.prove(f"loop{i}:variant", core._b(core.and_(v0 >= 0, v1 < v0)))
+        raise core.Cut()
+
+    def exit_ghost(self, i):
+        return self.ghost[i]
+
+
+class LoopRule(ast.NodeTransformer):
+    """while C: B   ==>
+         __lc.enter(i, locals())                      # assert Inv (entry)
+         <assigned targets of B> = __lc.havoc(...)    # havoc
+         __v = __lc.assume_inv(i, locals())           # assume Inv, remember variant
+         if C:
+             B
+             __lc.after_body(i, locals(), __v)        # assert Inv, assert variant decreases, cut
+         # falls through with Inv and not C
+    """
+
+    def __init__(self, n_expected):
+        self.ordinal = 0
+        self.n_expected = n_expected
+
+    def visit_While(self, node):
+        self.generic_visit(node)
+        i = self.ordinal
+        self.ordinal += 1
+        targets = []
+        for n in ast.walk(ast.Module(body=node.body, type_ignores=[])):
+            if isinstance(n, ast.AugAssign):
+                targets.append(n.target)
+            elif isinstance(n, ast.Assign):
+                targets.extend(n.targets)
+            elif isinstance(n, (ast.While, ast.For, ast.Return, ast.Break, ast.Continue, ast.Try, ast.With)):
+                raise core.Undecided("loop body outside the loop-rule subset (nested loop / break / return)")
+        seen, uniq = set(), []
+        for t in targets:
+            s = ast.unparse(t)
+            if s not in seen:
+                seen.add(s)
+                uniq.append(t)
+        pre = [f"__lc.enter({i}, locals())"]
+        for t in uniq:
+            pre.append(f"{ast.unparse(t)} = __lc.havoc({ast.unparse(t)!r})")
+        pre.append(f"__symx_v{i} = __lc.assume_inv({i}, locals())")
+        new = ast.parse("\n".join(pre)).body
+        tail = ast.parse(f"__lc.after_body({i}, locals(), __symx_v{i})").body
+        iff = ast.If(test=node.test, body=list(node.body) + tail, orelse=[])
+        return new + [iff]
+
+
+def rebuild_with_loops(func, specs, fresh, extra_passes=()):
+    """Apply the loop rule to every while loop of func; `specs` maps loop ordinal -> LoopSpec.
+    A mismatch between the number of loops and the registered ordinals is Undecided."""
+    rule = LoopRule(len(specs))
+    ctx = _LoopCtx(specs, fresh)
+    new = rebuild(func, list(extra_passes) + [rule], extra_globals={"__lc": ctx})
+    if rule.ordinal != len(specs):
+        raise core.Undecided(f"{func.__qualname__}: {rule.ordinal} while-loops found, {len(specs)} invariants registered")
+    return new, ctx
+
+
+def count_loops(func):
+    raw = inspect.unwrap(getattr(func, "__func__", func))
+    try:
+        tree = ast.parse(textwrap.dedent(inspect.getsource(raw)))
+    except (OSError, TypeError) as e:
+        raise core.Undecided(f"cannot fetch source of {func!r}: {e}")
+    return sum(isinstance(n, (ast.While, ast.For)) for n in ast.walk(tree))
